@@ -876,8 +876,12 @@ func (r *runningStep) executeSubWorkflows(input executeInput) ([]any, map[int]st
 			}
 
 			r.logger.Debugf("Executing item %d...", i)
-			// Ignore the output ID here because it can only be "success"
-			_, outputData, err := r.workflow.Execute(r.ctx, input)
+			// Only the "success" output of the subworkflow counts as a successful item; any other
+			// declared output is reported as a failure of that item.
+			outputID, outputData, err := r.workflow.Execute(r.ctx, input)
+			if err == nil && outputID != "success" {
+				err = fmt.Errorf("subworkflow finished with non-success output %q", outputID)
+			}
 			r.lock.Lock()
 			if err != nil {
 				itemErrors[i] = err.Error()
